@@ -1,7 +1,7 @@
 (* C19 -- Type descriptions round-trip and inferred schemas accept their data.
    Only statements, each closed by [exact] of a lemma from PV.Proofs.Types*. *)
 From Coq Require Import ZArith NArith List Bool String.
-Require Import PV.Base.Val PV.Gen.TypeTables PV.Model.Types PV.Proofs.TypesJson PV.Proofs.TypesRows.
+Require Import PV.Base.Val PV.Gen.TypeTables PV.Model.Types PV.Proofs.TypesJson PV.Proofs.TypesRows PV.Proofs.TypesInfer.
 Import ListNotations.
 Open Scope Z_scope.
 
@@ -102,3 +102,65 @@ Proof. exact as_dict_conv_spec. Qed.
 Theorem C19_row_asDict_lookup : forall names vals n i, NoDup names -> List.length names = List.length vals ->
   nth_error names i = Some n -> Some (dict_get n (combine (map PStr names) vals)) = nth_error vals i.
 Proof. exact dict_get_combine. Qed.
+
+(* ---- A schema inferred from rows of supported values verifies those rows.
+   "Rows generated from a type tree": [inferable t] is the shape inference can produce (every position
+   nullable, no metadata, distinct field names, decimal(38,18)); [is_row_of t r] says r is a Row of supported
+   values (bool, int, float, str, bytearray, Decimal, date, datetime, lists, dicts, nested Rows) of type t with
+   None allowed at EVERY position except map keys.  For any number of rows, any depth, any placement of nulls:
+   inference either answers exactly t or raises ValueError (empty data / a type not determined by any row);
+   when it answers, the schema verifies every row. *)
+Theorem C19_infer_rows_result : forall fs rows,
+  inferable (TStruct fs) -> Forall (is_row_of (TStruct fs)) rows ->
+  infer_schema_from_list rows = Ok (TStruct fs) \/ infer_schema_from_list rows = Err EValue.
+Proof. exact infer_rows_result. Qed.
+
+Theorem C19_infer_verifies : forall fs rows s,
+  inferable (TStruct fs) -> Forall (is_row_of (TStruct fs)) rows ->
+  infer_schema_from_list rows = Ok s ->
+  s = TStruct fs /\ Forall (fun r => verify s true r = Ok tt) rows.
+Proof. exact infer_verifies. Qed.
+
+(* the verifier accepts every value generated from an inferable tree, at any nullable position *)
+Theorem C19_verify_accepts : forall t, inferable t -> forall v n, ivalue t v -> (v = PNone -> n = true) ->
+  verify t n v = Ok tt.
+Proof. exact verify_ivalue. Qed.
+
+(* ---- createDataFrame followed by collect returns rows equal to the input.
+   Full statement: for rows as above whose schema can be inferred, createDataFrame(rows).collect() is the
+   input, where the only change is that a timezone-aware datetime is re-expressed in the local zone (same
+   instant: [tz_local] keeps the UTC microseconds).  It is FALSE today (open finding
+   create:null-in-array-or-map-of-struct): _create_converter iterates a None where the inferred type is an
+   array/map whose element type contains a struct. *)
+Definition C19_create_collect_full : Prop := create_collect_full.
+Theorem C19_create_collect_refuted : ~ C19_create_collect_full.
+Proof. exact create_collect_refuted. Qed.
+(* witness: [Row(a=[Row(x=1)]), Row(a=None)] -- the schema is inferred, createDataFrame raises TypeError *)
+Theorem C19_create_collect_witness :
+  create_inferred 0 witness_rows = Err EType /\ infer_schema_from_list witness_rows = Ok (TStruct witness_fs).
+Proof. exact witness_fails. Qed.
+
+(* proved part: extra hypothesis [conv_safe] = no None at an array/map position whose element type needs the
+   converter (contains a struct); everything else (nulls in atoms, in structs, in arrays/maps of atoms, as
+   elements of arrays of structs, ...) is covered *)
+Theorem C19_create_collect_partial : forall local fs rows s,
+  inferable (TStruct fs) -> Forall (is_row_of (TStruct fs)) rows -> Forall (conv_safe (TStruct fs)) rows ->
+  infer_schema_from_list rows = Ok s ->
+  create_inferred local rows = Ok (map (tz_local local) rows).
+Proof. exact create_collect_partial. Qed.
+
+(* conversion to the internal representation alone never fails on such values (the repaired null timestamp) *)
+Theorem C19_to_internal : forall local t v, ivalue t v -> to_internal local t v = Ok (tz_local local v).
+Proof. exact to_internal_ivalue. Qed.
+
+(* non-vacuity: the hypotheses hold for rows with nested Rows, nulls at several positions and an aware datetime *)
+Example sample_hypotheses :
+  inferable (TStruct sample_fs) /\ Forall (is_row_of (TStruct sample_fs)) sample_rows /\
+  Forall (conv_safe (TStruct sample_fs)) sample_rows /\
+  infer_schema_from_list sample_rows = Ok (TStruct sample_fs).
+Proof. exact (conj sample_inferable (conj sample_rows_ok (conj sample_rows_safe sample_inferred))). Qed.
+Example sample_created :
+  create_inferred 0 sample_rows =
+    Ok [PRow [lit "a"; lit "t"] [PList [PRow [lit "x"] [PInt 1]; PNone]; PDatetime 5 (Some 0)];
+        PRow [lit "a"; lit "t"] [PList []; PNone]].
+Proof. vm_compute. reflexivity. Qed.
